@@ -122,6 +122,12 @@ func preclassOf(bal, amount *big.Int) string {
 
 func (e *env) opMint(hostile bool) *op {
 	to := e.pickAddr()
+	// a deposit may name any address, a live lock account too: it stays a lock (seeded change C09-10: the credited
+	// record written anew from the balance alone)
+	if l, ok := e.pickLock(); ok && e.modelBalance(l).Sign() > 0 && e.b.Rng.IntN(8) == 0 {
+		to = l
+		e.b.Hit("mint-onto-a-live-lock-account")
+	}
 	amt := e.pickAmount(big.NewInt(int64(100+e.b.Rng.IntN(900))), hostile)
 	if !hostile && amt.Sign() <= 0 {
 		amt = big.NewInt(int64(100 + e.b.Rng.IntN(900)))
